@@ -2,6 +2,7 @@
 //! exit 0 = held (or only known findings), 1 = violation, 2 = cannot decide.
 use gvlib::ctx::*;
 use gvlib::c15;
+use gvlib::c17;
 use gvlib::c20;
 use gvlib::container;
 use gvlib::contmap;
@@ -30,6 +31,7 @@ fn run_property(prop: &str, ctx: &mut Ctx) {
         "C11" => container::run_c11(ctx),
         "C12" => container::run_c12(ctx),
         "C15" => c15::run(ctx),
+        "C17" => c17::run(ctx),
         "C18" => contmap::run(ctx),
         "C19" => drops::run(ctx),
         "C20" => c20::run(ctx),
@@ -50,6 +52,7 @@ fn replay_case(prop: &str, v: &Value, st: &mut Stats) -> Result<(), String> {
         "C11" => container::replay_c11(case, st),
         "C12" => container::replay_c12(case, st),
         "C15" => c15::replay(case, st),
+        "C17" => c17::replay(case, st),
         "C18" => contmap::replay(case, st),
         "C19" => drops::replay(case, st),
         "C20" => c20::replay(case, st),
@@ -63,6 +66,13 @@ fn main() {
         usage();
     }
     let prop = args[1].clone();
+    if prop == "C17-free" {
+        // child process of the C17 free-running tier: gv C17-free <flavour> <shape idx> <iterations>
+        silence_panics();
+        let idx: usize = args.get(3).and_then(|s| s.parse().ok()).unwrap_or(0);
+        let iters: u64 = args.get(4).and_then(|s| s.parse().ok()).unwrap_or(1000);
+        std::process::exit(c17::free_child(&args[2], idx, iters));
+    }
     let tier = match args[2].as_str() {
         "quick" => Tier::Quick,
         "thorough" => Tier::Thorough,
